@@ -88,7 +88,7 @@ def run(m):
             fails = [l for l in t.stdout.splitlines() if l.startswith("--- FAIL") and "TestClientResetStream" not in l]
             res["suite"] = "pass" if not fails else "FAILS: " + ";".join(fails)[:300]
         t0 = time.time()
-        cmd = "cd %s && ./check %s --tier quick" % (ROOT, m["prop"])
+        cmd = "cd %s && VERIF_NO_EVIDENCE=1 ./check %s --tier quick" % (ROOT, m["prop"])
         if m.get("only"):
             cmd += " --only " + m["only"]
         c = sh(cmd, timeout=1500)
